@@ -84,9 +84,10 @@ def find_node(nodes, path):
     n = None
     cur = nodes
     for k in path:
+        if not isinstance(cur, list) or k >= len(cur):
+            return None         # the output does not have the input's shape here (the callers report that)
         n = cur[k]
-        if n[0] == "A":
-            cur = n[3]
+        cur = n[3] if n[0] == "A" else None
     return n
 
 
